@@ -81,13 +81,12 @@ def workload(ctx):
     for rep in range(reps):
         for key in names:
             for kind in ("Uiso", "Uani", "none"):
-                if ctx.tier == "quick" and kind == "none" and idx % 3:
+                s = int(rng.integers(0, 2 ** 31))
+                if ctx.tier == "quick" and kind == "none" and s % 3:
                     idx += 1
                     continue
                 if ctx.mine(idx):
-                    yield "covariance", {"key": key, "kind": kind, "s": int(rng.integers(0, 2 ** 31)), "nh": ctx.n(2, 8)}
-                else:
-                    rng.integers(0, 2 ** 31)
+                    yield "covariance", {"key": key, "kind": kind, "s": s, "nh": ctx.n(2, 8)}
                 idx += 1
 
 
